@@ -18,7 +18,7 @@ META_OPS = ("smeta", "rmeta", "dmeta")
 
 
 class Call(object):
-    __slots__ = ("task", "idx", "op", "inv", "ret", "out", "extra")
+    __slots__ = ("task", "idx", "op", "inv", "ret", "out", "extra", "seq0", "seq1")
 
     def __init__(self, task, idx, op):
         self.task = task
@@ -28,6 +28,8 @@ class Call(object):
         self.ret = None
         self.out = None
         self.extra = None
+        self.seq0 = None
+        self.seq1 = None
 
 
 def _owns_pid(op):
@@ -75,7 +77,7 @@ def split_delete_all(calls, nformats):
     return out
 
 
-def linearize(model0, calls, final_alpha, allow_inprogress=True, ignore_digests=False):
+def linearize(model0, calls, final_alpha, allow_inprogress=True, ignore_digests=False, wild=(), final_check=None):
     """Search for a sequential order (respecting per-task order and real-time precedence) whose
     model execution yields every observed outcome and the observed final state.  Returns
     (order, None) or (None, reason)."""
@@ -107,7 +109,7 @@ def linearize(model0, calls, final_alpha, allow_inprogress=True, ignore_digests=
 
     def rec(done, mdl, order):
         if len(order) == n:
-            diffs = W.compare_alpha(final_alpha, mdl)
+            diffs = final_check(mdl) if final_check is not None else W.compare_alpha(final_alpha, mdl)
             if not diffs:
                 return list(order)
             if best["depth"] < n:
@@ -123,6 +125,21 @@ def linearize(model0, calls, final_alpha, allow_inprogress=True, ignore_digests=
                 continue
             c = calls[i]
             m2 = mdl.clone()
+            if i in wild:
+                # a call whose outcome and effect are not judged here (it met an injected fault, or shares the
+                # identifier of one that did): it may have had its whole effect or none
+                for eff in (True, False):
+                    m3 = mdl.clone()
+                    if eff:
+                        m3.apply(c.op)
+                    done.add(i)
+                    order.append(i)
+                    r = rec(done, m3, order)
+                    if r is not None:
+                        return r
+                    order.pop()
+                    done.discard(i)
+                continue
             if i in noop:
                 okc = True
             else:
@@ -297,7 +314,9 @@ class ConcEngine(object):
                     clock[0] += 1
                     c.inv = clock[0]
                     sch.yield_point()
+                    c.seq0 = w.run.seq
                     c.out, c.extra = w.exec_op(op, store=store)
+                    c.seq1 = w.run.seq
                     clock[0] += 1
                     c.ret = clock[0]
             return body
@@ -349,6 +368,21 @@ class ConcEngine(object):
         sig, shared = interleaving_signature(w.run.log[setup_events:])
         res.stats["interleaving"] = sig
         res.stats["shared"] = shared
+        if prog.get("scout"):
+            # fault sites (index among the fault-kind events of the concurrent phase) on paths that more than
+            # one task touched: where a failing call can hurt somebody else
+            tasks_of = {}
+            for e in w.run.log[setup_events:]:
+                if e.rel is not None:
+                    tasks_of.setdefault(e.rel, set()).add(e.task)
+            sites, k = [], 0
+            for e in w.run.log[setup_events:]:
+                if e.kind in seam.FAULT_KINDS_CORE:
+                    if e.rel is not None and len(tasks_of.get(e.rel, ())) > 1:
+                        sites.append(k)
+                    k += 1
+            res.stats["shared_fault_sites"] = sites
+            return
         # a concurrency violation in multiprocessing mode is a C16 violation and a violation of the
         # concurrency property itself (C07 / C12 do not restrict the synchronisation mode)
         props = (classify_conc(calls) if calls else set(["C07"])) | (set(["C16"]) if mp else set())
@@ -368,6 +402,9 @@ class ConcEngine(object):
                     res.violations.append(Violation(self.c08(), "liveness", "liveness:self-deadlock",
                                                     {"call": c.op, "extra": _jsonable(c.extra)}))
                     return
+        if fp is not None and fp.fired is not None and prog.get("bystander") and not res.violations:
+            with seam.activate(w.run, 0):
+                self.bystanders(mdl, calls, fp, scenario)
         if fp is not None or liveness_only:
             # after an injected fault / from an interrupted start state only the liveness oracles apply (what a failed call may leave
             # behind is C13's subject, decided one call at a time by the FAULT engine)
@@ -422,6 +459,60 @@ class ConcEngine(object):
             if v is not None:
                 v.props = self.c08()
                 res.violations.append(v)
+
+    def bystanders(self, mdl, calls, fp, scenario):
+        """C13 under concurrency: "in all cases every other pid's data is untouched".  The call that met the
+        injected error -- and every call on the same pid, or validating the same content -- is neither judged
+        nor trusted (each may have had its whole effect or none); all OTHER calls must still have outcomes,
+        and all other pids and documents must still read back, as some sequential order explains."""
+        w, res = self.world, self.res
+        fired = fp.fired
+        f = None
+        for c in calls:
+            if c.task == fired.task and getattr(c, "seq0", None) is not None and \
+                    c.seq0 < fired.seq <= (c.seq1 if getattr(c, "seq1", None) is not None else 10 ** 12):
+                f = c
+        if f is None or f.op.get("pid") is None:
+            return
+        # every call that met an injected error (a persistent fault hits every call that touches the path)
+        hit = [c for c in calls if getattr(c, "seq0", None) is not None and any(
+            t == c.task and c.seq0 < q <= (c.seq1 if c.seq1 is not None else 10 ** 12) for t, q in fp.hits)]
+        if any(c.op.get("pid") is None for c in hit):
+            return
+        fpids = set(c.op["pid"] for c in hit)
+        fconts = set(c.op.get("c") for c in hit if c.op["op"] == "store")
+        wild = set()
+        for i, c in enumerate(calls):
+            if c in hit or c.op.get("pid") in fpids:
+                wild.add(i)
+            elif c.op["op"] == "div" and (not fconts or c.op.get("c") in fconts or len(hit) > len(fconts)):
+                wild.add(i)
+            elif c.out is None or c.ret is None:
+                wild.add(i)
+        obs = {}
+        for pi in range(len(w.pids)):
+            if pi not in fpids:
+                obs[("o", pi)] = w.exec_op({"op": "retrieve", "pid": pi})[0]
+                for fi in [None] + list(range(len(w.formats))):
+                    obs[("m", pi, fi)] = w.exec_op({"op": "rmeta", "pid": pi, "fmt": fi})[0]
+
+        def final_check(m):
+            diffs = []
+            for k, out in obs.items():
+                exp = m.op_retrieve({"pid": k[1]}) if k[0] == "o" else m.op_rmeta({"pid": k[1], "fmt": k[2]})
+                if not exp.matches(out):
+                    diffs.append(["bystander", [k[0], w.pids[k[1]]] + list(k[2:]), exp.describe(), [out[0], _jsonable(out[1])]])
+            return diffs
+
+        order, why = linearize(mdl, calls, None, wild=wild, final_check=final_check)
+        res.flags.add("bystander-oracle")
+        if order is None:
+            res.violations.append(Violation(
+                {"C13"} | (set(["C16"]) if w.mp else set()), "bystander", "conc-fault:bystander:%s" % _nonlin_sig(calls, why),
+                {"why": _jsonable(why), "faulted_call": f.op, "fault_site": {"kind": fired.kind, "cls": fired.cls},
+                 "scenario": scenario,
+                 "history": [{"task": c.task, "op": c.op, "inv": c.inv, "ret": c.ret,
+                              "out": None if c.out is None else [c.out[0], _jsonable(c.out[1])]} for c in calls]}))
 
     def c08(self):
         # termination / nothing-left-locked belongs to C08 in threading mode and to C16 when the
